@@ -32,6 +32,7 @@ type replayFile struct {
 // Outcome of a native run, inspected by the replay test driver.
 type Outcome struct {
 	Failed    []string // labels of failed assertions
+	Evaluated []string // labels of every assertion the native run evaluated (failed or not)
 	Reached   []string
 	Notes     []string
 	AssumeBad bool // an assumption did not hold natively (replay diverged)
@@ -228,6 +229,16 @@ func Assume(c bool) {
 }
 
 func Assert(c bool, label string) {
+	seen := false
+	for _, l := range Out.Evaluated {
+		if l == label {
+			seen = true
+			break
+		}
+	}
+	if !seen {
+		Out.Evaluated = append(Out.Evaluated, label)
+	}
 	if !c {
 		Out.Failed = append(Out.Failed, label)
 	}
